@@ -8,6 +8,7 @@ fn raw_part() -> bool {
 	let mut attrs: BTreeMap<String, usize> = BTreeMap::new();
 	let mut ops: BTreeMap<&'static str, usize> = BTreeMap::new();
 	let mut versions: BTreeMap<u16, usize> = BTreeMap::new();
+	let mut nspans = 0usize;
 	fn count_attrs(v: &[raw::Attribute], m: &mut BTreeMap<String, usize>, ops: &mut BTreeMap<&'static str, usize>) {
 		for a in v {
 			let key = if matches!(a.info, raw::AttrInfo::Unknown(_)) { format!("(unknown) {}", a.name) } else { a.name.clone() };
@@ -32,18 +33,74 @@ fn raw_part() -> bool {
 				*versions.entry(c.major).or_insert(0) += 1;
 				let w = raw::write(&c);
 				if &w != bytes { ok = false; println!("REWRITE DIFFERS {name}: {} vs {} bytes", w.len(), bytes.len()); }
+				match fbh::classfile::layout::layout(bytes) {
+					Err(e) => { ok = false; println!("LAYOUT FAIL {name}: {e}"); }
+					Ok(spans) => {
+						let mut at = 0;
+						for s in &spans { if s.offset != at { ok = false; println!("LAYOUT GAP {name} at {at} before {}", s.path); break; } at += s.len; }
+						if at != bytes.len() || spans.iter().any(|s| s.path == "trailing") { ok = false; println!("LAYOUT {name}: covers {at} of {} bytes", bytes.len()); }
+						nspans += spans.len();
+					}
+				}
 				count_attrs(&c.attributes, &mut attrs, &mut ops);
 				for m in c.fields.iter().chain(c.methods.iter()) { count_attrs(&m.attributes, &mut attrs, &mut ops); }
 			}
 		}
 	}
 	println!("raw: {} classes, versions {:?}", classes.len(), versions);
+	println!("layout: {nspans} spans tile all classes");
 	println!("attributes: {:?}", attrs);
 	println!("opcodes seen: {}", ops.len());
 	let missing: Vec<&str> = fbh::classfile::opcodes::MNEMONICS.iter().copied().filter(|m| *m != "wide" && !ops.contains_key(m)).collect();
 	println!("opcodes never seen: {:?}", missing);
 	println!("wide forms: {:?}", ops.iter().filter(|(k, _)| k.starts_with("wide ")).collect::<Vec<_>>());
 	ok
+}
+
+/// the table written to corpus/classes/FEATURES.txt
+fn features() {
+	let mut classes = corpus::corpus_classes();
+	classes.sort_by_key(|(n, _)| (n.starts_with("crafted/"), n.starts_with("sample/"), n.clone()));
+	let mut attrs: BTreeMap<String, (usize, Vec<String>)> = BTreeMap::new();
+	let mut ops: BTreeMap<String, (usize, Vec<String>)> = BTreeMap::new();
+	let mut consts: BTreeMap<&'static str, (usize, Vec<String>)> = BTreeMap::new();
+	let mut align: BTreeMap<(String, u32), (usize, Vec<String>)> = BTreeMap::new();
+	fn note<K: Ord>(m: &mut BTreeMap<K, (usize, Vec<String>)>, k: K, ex: &str) { let e = m.entry(k).or_insert((0, vec![])); e.0 += 1; if e.1.len() < 2 && !e.1.iter().any(|x| x == ex) { e.1.push(ex.to_string()); } }
+	fn walk(v: &[raw::Attribute], cls: &str, ctx: &str, attrs: &mut BTreeMap<String, (usize, Vec<String>)>, ops: &mut BTreeMap<String, (usize, Vec<String>)>, align: &mut BTreeMap<(String, u32), (usize, Vec<String>)>) {
+		for a in v {
+			let key = if matches!(a.info, raw::AttrInfo::Unknown(_)) { format!("{} [{ctx}] (not predefined there: kept as bytes)", a.name) } else { format!("{} [{ctx}]", a.name) };
+			note(attrs, key, cls);
+			match &a.info {
+				raw::AttrInfo::Code(c) => {
+					for (pc, i) in raw::decode_code(&c.code).unwrap() {
+						let mn = fbh::classfile::opcodes::mnemonic(i.opcode).unwrap();
+						note(ops, if i.wide { format!("wide {mn}") } else { mn.to_string() }, cls);
+						if mn.ends_with("switch") { note(align, (mn.to_string(), pc % 4), &format!("{cls} pc {pc}")); }
+					}
+					walk(&c.attributes, cls, "Code", attrs, ops, align);
+				}
+				raw::AttrInfo::Record(cs) => for c in cs { walk(&c.attributes, cls, "record component", attrs, ops, align); },
+				_ => {}
+			}
+		}
+	}
+	for (name, bytes) in &classes {
+		let c = raw::parse(bytes).unwrap();
+		for k in c.pool.iter().flatten() { note(&mut consts, k.kind_name(), name); }
+		walk(&c.attributes, name, "class", &mut attrs, &mut ops, &mut align);
+		for m in &c.fields { walk(&m.attributes, name, "field", &mut attrs, &mut ops, &mut align); }
+		for m in &c.methods { walk(&m.attributes, name, "method", &mut attrs, &mut ops, &mut align); }
+	}
+	println!("== attributes (name [location]): occurrences, example classes");
+	for (k, (n, ex)) in &attrs { println!("{k}: {n}  e.g. {}", ex.join(", ")); }
+	println!("\n== constant kinds: occurrences, example classes");
+	for (k, (n, ex)) in &consts { println!("{k}: {n}  e.g. {}", ex.join(", ")); }
+	println!("\n== switch opcodes by (offset mod 4): occurrences, examples");
+	for ((m, r), (n, ex)) in &align { println!("{m} at pc%4={r}: {n}  e.g. {}", ex.join(", ")); }
+	println!("\n== opcodes: occurrences, example classes");
+	for (k, (n, ex)) in &ops { println!("{k}: {n}  e.g. {}", ex.join(", ")); }
+	let missing: Vec<&str> = fbh::classfile::opcodes::MNEMONICS.iter().copied().filter(|m| *m != "wide" && !ops.contains_key(*m)).collect();
+	println!("\nopcodes never seen: {missing:?}");
 }
 
 /// raw facts vs duke facts on every corpus class, and duke's writer checked by the strict parser
@@ -107,10 +164,127 @@ fn duke_part(verbose: bool) -> bool {
 	ok
 }
 
+/// facts_from_raw(parse(assemble(spec, knobs))) == facts_of_spec(spec) for generated specs and every knob setting,
+/// plus the boundary constructions; also runs duke over the generated classes and summarises
+fn asm_part(n: usize, seed: u64) -> bool {
+	use fbh::classfile::asm::*;
+	use fbh::classfile::facts::{facts_from_duke, facts_from_raw, FactGroup};
+	use fbh::classfile::gen::{self, boundary, GenCfg};
+	let mut ok = true;
+	let mut rng = fbh::prng::Rng::new(seed);
+	let cfg = GenCfg::default();
+	let (mut total, mut bytes_total, mut under_1k) = (0usize, 0usize, 0usize);
+	let mut attrs: BTreeMap<String, usize> = BTreeMap::new();
+	let mut ops: BTreeMap<String, usize> = BTreeMap::new();
+	let mut duke_groups: BTreeMap<FactGroup, usize> = BTreeMap::new();
+	let mut duke_err: BTreeMap<String, usize> = BTreeMap::new();
+	let mut check = |name: &str, spec: &ClassSpec, knobs: &Knobs, ok: &mut bool| -> Option<Vec<u8>> {
+		let truth = facts_of_spec(spec);
+		let bytes = match try_assemble(spec, knobs) { Ok(b) => b, Err(e) => { *ok = false; println!("ASSEMBLE FAIL {name} {knobs:?}: {e}"); return None; } };
+		match raw::parse(&bytes).and_then(|c| { if raw::write(&c) != bytes { return Err("rewrite differs".into()); } facts_from_raw(&c) }) {
+			Err(e) => { *ok = false; println!("PARSE FAIL {name} {knobs:?}: {e}"); None }
+			Ok(f) => { if f != truth { *ok = false; println!("FACTS DIFFER {name} {knobs:?}:"); for l in truth.diff(&f).iter().take(8) { println!("   {l}"); } } Some(bytes) }
+		}
+	};
+	for k in 0..n {
+		let spec = gen::gen_class(&mut rng, &cfg);
+		let fam = Knobs::family(seed ^ k as u64);
+		for (j, knobs) in fam.iter().enumerate() {
+			let Some(bytes) = check(&format!("gen#{k}"), &spec, knobs, &mut ok) else { continue };
+			total += 1;
+			if j == 0 {
+				bytes_total += bytes.len(); if bytes.len() < 1024 { under_1k += 1; }
+				let c = raw::parse(&bytes).unwrap();
+				fn walk(v: &[raw::Attribute], m: &mut BTreeMap<String, usize>, ops: &mut BTreeMap<String, usize>) {
+					for a in v {
+						*m.entry(if matches!(a.info, raw::AttrInfo::Unknown(_)) { "(unknown)".to_string() } else { a.name.clone() }).or_insert(0) += 1;
+						if let raw::AttrInfo::Code(c) = &a.info { for (_, i) in raw::decode_code(&c.code).unwrap() { *ops.entry(fbh::classfile::opcodes::mnemonic(i.opcode).unwrap().to_string()).or_insert(0) += 1; } walk(&c.attributes, m, ops); }
+						if let raw::AttrInfo::Record(cs) = &a.info { for c in cs { walk(&c.attributes, m, ops); } }
+					}
+				}
+				walk(&c.attributes, &mut attrs, &mut ops);
+				for m in c.fields.iter().chain(c.methods.iter()) { walk(&m.attributes, &mut attrs, &mut ops); }
+			}
+			// duke on the generated class (informative: differences are findings for the property agents)
+			if j == 0 || j == fam.len() - 2 {
+				let truth = facts_of_spec(&spec);
+				let b2 = bytes.clone();
+				match fbh::report::guarded(move || duke::read_class(&mut std::io::Cursor::new(&b2))) {
+					Ok(Ok(c)) => for g in truth.differing_groups(&facts_from_duke(&c)) { *duke_groups.entry(g).or_insert(0) += 1; },
+					Ok(Err(e)) => { let m = format!("{e:#}"); let key: String = m.split(':').last().unwrap_or("").trim().chars().filter(|c| !c.is_ascii_digit()).take(70).collect(); *duke_err.entry(key).or_insert(0) += 1; }
+					Err(p) => *duke_err.entry(format!("PANIC {}", p.chars().take(60).collect::<String>())).or_insert(0) += 1,
+				}
+			}
+		}
+	}
+	println!("asm: {n} generated specs x {} knob settings = {total} assemblies checked; mean size {} bytes, {under_1k}/{n} under 1 KB", Knobs::family(0).len(), bytes_total / n.max(1));
+	println!("attributes generated: {attrs:?}");
+	let missing: Vec<&str> = fbh::classfile::opcodes::MNEMONICS.iter().copied().filter(|m| *m != "wide" && !ops.contains_key(*m)).collect();
+	println!("opcodes generated: {} distinct; never (with default knobs): {:?}", ops.len(), missing);
+	println!("duke::read_class on generated classes: fact groups differing from the ground truth: {duke_groups:?}");
+	println!("duke::read_class errors on generated classes (message tail -> count): {duke_err:?}");
+	// boundary constructions
+	let d = Knobs::default();
+	for dist in [32766, 32767, 32768, 32769, -32767, -32768, -32769, -32770, 3, -1] {
+		for opn in ["goto", "jsr", "ifeq", "if_acmpne", "ifnull"] {
+			let (spec, d) = boundary::branch_distance(opn, dist);
+			let encodable = (-32768..=32767).contains(&dist) || opn == "goto" || opn == "jsr";
+			match try_assemble(&spec, &d) {
+				Ok(b) => {
+					if !encodable { ok = false; println!("BOUNDARY {opn} {dist}: assembled though not encodable"); }
+					let c = raw::parse(&b).unwrap();
+					let code = c.methods[0].attributes.iter().find_map(|a| if let raw::AttrInfo::Code(c) = &a.info { Some(c) } else { None }).unwrap();
+					let ins = raw::decode_code(&code.code).unwrap();
+					let (pc, br) = ins.iter().find(|(_, i)| matches!(i.operands, raw::Operands::Branch(_))).unwrap();
+					if let raw::Operands::Branch(t) = br.operands { if t as i64 - *pc as i64 != dist as i64 { ok = false; println!("BOUNDARY {opn} {dist}: got distance {}", t as i64 - *pc as i64); } }
+					check(&format!("branch_distance({opn},{dist})"), &spec, &d, &mut ok);
+				}
+				Err(e) => if encodable { ok = false; println!("BOUNDARY {opn} {dist}: {e}"); },
+			}
+		}
+	}
+	for (name, spec) in [("branch_chain", boundary::branch_chain(5, 32767)), ("switch_alignments", boundary::switch_alignments()), ("locals_crossing", boundary::locals_crossing()),
+		("code_length 65533", boundary::code_length(65533)), ("code_length 65534", boundary::code_length(65534)), ("code_length 65535", boundary::code_length(65535)),
+		("code_length_ending_in_branch", boundary::code_length_ending_in_branch()), ("all_instructions", boundary::all_instructions())] {
+		for knobs in Knobs::family(seed) {
+			if name.starts_with("code_length") && knobs.enc != Enc::Shortest { continue; }
+			if name == "branch_chain" && !matches!(knobs.enc, Enc::Shortest) { continue; }
+			check(name, &spec, &knobs, &mut ok);
+		}
+	}
+	if try_assemble(&boundary::code_length(65536), &d).is_ok() { ok = false; println!("BOUNDARY code_length 65536 assembled"); }
+	if try_assemble(&boundary::branch_chain(3, 32768), &d).is_ok() { ok = false; println!("BOUNDARY branch_chain at 32768 assembled"); }
+	let pc = boundary::pool_crossing(40);
+	for knobs in boundary::pool_crossing_knobs() {
+		if let Some(b) = check("pool_crossing", &pc, &knobs, &mut ok) {
+			let c = raw::parse(&b).unwrap();
+			let first = c.pool.iter().position(|e| matches!(e, Some(raw::Const::Integer(100000)))).unwrap();
+			if knobs.pool.pad_kind == PadKind::Int && first != 5 + knobs.pool.pad_front { ok = false; println!("BOUNDARY pool_crossing: first constant at {first}, expected {}", 5 + knobs.pool.pad_front); }
+		}
+	}
+	for front in [true, false] {
+		let knobs = boundary::pool_full_knobs(&pc, front).unwrap();
+		if let Some(b) = check("pool_full", &pc, &knobs, &mut ok) { let c = raw::parse(&b).unwrap(); if c.pool.len() != 65535 { ok = false; println!("BOUNDARY pool_full: count {}", c.pool.len()); } }
+	}
+	ok
+}
+
 fn main() {
 	let what = std::env::args().nth(1).unwrap_or_else(|| "all".into());
 	let mut ok = true;
 	if what == "raw" || what == "all" { ok &= raw_part(); }
+	if what == "features" { features(); return; }
+	if what == "craft" {
+		// writes corpus/classes/crafted (run once; the files are vendored)
+		let dir = std::path::PathBuf::from(std::env::args().nth(2).expect("output directory"));
+		for (name, spec, knobs) in fbh::classfile::gen::crafted() {
+			let p = dir.join(format!("{name}.class"));
+			std::fs::create_dir_all(p.parent().unwrap()).unwrap();
+			std::fs::write(&p, fbh::classfile::asm::assemble(&spec, &knobs)).unwrap();
+		}
+		return;
+	}
+	if what == "asm" || what == "all" { let n = std::env::args().nth(2).and_then(|a| a.parse().ok()).unwrap_or(2000); ok &= asm_part(n, std::env::args().nth(3).and_then(|a| a.parse().ok()).unwrap_or(1)); }
 	if what == "duke" || what == "all" { ok &= duke_part(std::env::args().nth(2).as_deref() == Some("-v")); }
 	println!("{}", if ok { "SELFTEST OK" } else { "SELFTEST FAILED" });
 	std::process::exit(if ok { 0 } else { 1 });
